@@ -14,6 +14,19 @@ Streams
   pcorr    : `pair_correlation_2d/3d` (explicit boundary, fraction=1) vs the model `PCORR` with
              the code's own edge-correction values plugged in; permutation / translation
              invariance checked directly on the code.
+  clusterbig / proxbig : the same runners on crowded frames of 45-110 (cluster) / 33-500 (proximity:
+             the other kd-tree leaf sizes) rows, frame numbers of either sign, any DataFrame index;
+             large proximity frames are judged by the direct oracle only.
+  gr       : the PUBLIC signatures of `pair_correlation_2d/3d` on inhomogeneous point sets (aggregate
+             in a dilute background, two clusters of different density, dense line, jittered
+             lattice, uniform) with the rarely varied options (boundary automatic / given / wider /
+             cutting particles off, ndensity, max_rel_ndensity, fraction=1, p_indices, handle_edge,
+             dr not dividing the cutoff or wider than it, cutoff larger than the box, odd DataFrame
+             index).  Whenever a g(r) is RETURNED every judged bin must equal the brute-force
+             definition over ALL pairs within the cutoff; the documented RuntimeError "too many
+             particle pairs" is accepted when some particle really fills its max_p_count slots and
+             is answered by doubling max_rel_ndensity; permutation / translation invariance.
+             Direct oracle only (no model).
   arc      : `arclen_2d_bounded` vs exact angle-interval arithmetic, `area_3d_bounded` vs
              numerical quadrature (supporting evidence for 3-D).
   arcfn    : `circle_cap_arclen`, `circle_corner_arclen`, `arclen_2d_bounded` in function mode vs the
@@ -41,8 +54,13 @@ RULE = ("cluster/boundary streams: 1-4 frames x 1-30 points on a k/8 grid sized 
         "on edges/corners and r larger than the box, non-trivial = >= 1 side cut.  arcfn: 1-6 "
         "(centre, r) per box, grid / generic doubles / radii on and one ulp around the mask "
         "thresholds (h = r, h1^2+h2^2 = r^2), r up to 2x the box and down to 1e-6 of it, "
-        "non-trivial = >= 1 side cut.  distinct = "
-        "distinct canonical input.")
+        "non-trivial = >= 1 side cut.  gr: 8-150 particles on a 1/1024 grid in 5 point-set classes "
+        "(uniform, aggregate + dilute background, two clusters, dense line, jittered lattice), "
+        "boundary automatic or given (exact / wider / cutting particles off / particles in corners), "
+        "all keyword options of the public signature except fraction < 1 (random subset), cutoff "
+        "from a fraction of the dense structure to 1.3 box diagonals, 1-60 bins; non-trivial = >= 2 "
+        "judged non-empty bins.  clusterbig / proxbig: crowded frames of 45-110 / 33-500 rows.  "
+        "distinct = distinct canonical input.")
 ASSUMPTIONS = [
     "coordinates and separations are k/8: every rescaled squared distance is an exact rational "
     "whose distance from 1 is 0 or >= 1e-6, so float64 decides every non-tie as the model does",
@@ -53,6 +71,13 @@ ASSUMPTIONS = [
     "Python set iteration order of the pair set is observed (wrapped from_pairs), not modelled",
     "pair correlation: model computes on squared distances in exact rationals; the code's own "
     "arclen/area values (float) are plugged in as the abstract `arc`; sums compared at 1e-9 rel.",
+    "gr stream: coordinates, boundaries and translations are integers/1024 (float-exact); distances, "
+    "arc lengths and sums are float64; a bin is not judged when a pair distance lies within 1e-9 "
+    "of one of its edges or of the cutoff, or when a pair's arc inside the box is between 1e-6 and "
+    "1e-3 of its radius (the code's undefined-weight threshold is 1e-5); g compared at 1e-6; in "
+    "3-D the code's own area_3d_bounded supplies the weights (checked by the arc stream); "
+    "fraction < 1 (random subset) is not generated; samples so sparse that max_p_count <= 1 are "
+    "skipped and counted (the unchanged tree raises ValueError / IndexError there: reported)",
     "3-D edge correction is compared with numerical quadrature only (tolerance 1e-4): supporting "
     "evidence, not covered by a theorem",
     "2-D edge correction: the Lean definitions proved exact over the reals are executed at IEEE "
@@ -107,7 +132,7 @@ def _repair_inexact_ties(rng, pts, sep, dim):
         pts[hit][rng.randrange(dim)] += rng.choice([-1, 1])
 
 
-def gen_cluster(rng, boundary):
+def gen_cluster(rng, boundary, big=False):
     dim = rng.choice([2, 2, 3])
     per_axis = rng.random() < 0.4
     if boundary:
@@ -118,9 +143,14 @@ def gen_cluster(rng, boundary):
     sep = [rng.choice(pool) for _ in range(dim)] if per_axis else [rng.choice(pool)] * dim
     nframes = rng.choice([1, 1, 2, 3, 4])
     frame_nos = sorted(rng.sample(range(0, 12), nframes))
+    if big:                                   # few, crowded frames; frame numbers of either sign
+        nframes = rng.choice([1, 2])
+        frame_nos = sorted(rng.sample(range(-5, 40), nframes))
     rows = []
     for fno in frame_nos:
         n = rng.choice([1, 2, 3, 5, 8, 12, 20, 30]) if rng.random() < 0.8 else rng.randint(1, 30)
+        if big:
+            n = rng.choice([45, 70, 110])
         # box so that the mean number of neighbours within the separation is ~ 1-3
         dens = rng.choice([0.6, 1.0, 1.5, 2.5])
         vol_sep = (math.pi if dim == 2 else 4.19) * np.prod([s / 8.0 for s in sep])
@@ -153,7 +183,7 @@ def gen_cluster(rng, boundary):
         idx = list(range(100, 100 + n))
     else:
         idx = rng.sample(range(0, 3 * n + 5), n)
-    return dict(stream="boundary" if boundary else "cluster", dim=dim,
+    return dict(stream=("clusterbig" if big else "boundary" if boundary else "cluster"), dim=dim,
                 sep=["%d/8" % s for s in sep], scalar_sep=(not per_axis) and rng.random() < 0.8,
                 rows=[[r[0]] + ["%d/8" % v for v in r[1:]] for r in rows], index=idx,
                 t_column=rng.choice(["frame", "frame", "t"]),
@@ -175,6 +205,23 @@ def gen_prox(rng):
                 particle=rng.random() < 0.5, perm=rng.randint(0, 10 ** 6))
 
 
+def gen_prox_big(rng):
+    """frames large enough for the other leaf sizes of proximity's kd-tree (round(log10(n)) = 2, 3),
+    crowded enough for coincident points and equidistant neighbours, any DataFrame index"""
+    dim = rng.choice([2, 2, 3])
+    n = rng.choice([33, 60, 150, 320, 500])
+    ext = rng.choice([8, 40, 400])
+    pts = []
+    for _ in range(n):
+        if pts and rng.random() < 0.05:
+            pts.append(list(rng.choice(pts)))
+        else:
+            pts.append([rng.randint(0, ext) for _ in range(dim)])
+    return dict(stream="proxbig", dim=dim, pts=[["%d/8" % v for v in p] for p in pts],
+                particle=rng.random() < 0.5, perm=rng.randint(0, 10 ** 6),
+                index=rng.choice(["range", "offset", "shuffled"]), extra_col=rng.random() < 0.5)
+
+
 def gen_cases(ctx):
     for inp in ctx.corpus():
         yield inp
@@ -182,8 +229,12 @@ def gen_cases(ctx):
         yield gen_cluster(ctx.rng("cluster", i), boundary=False)
     for i in range(ctx.n(300, 5000)):
         yield gen_cluster(ctx.rng("boundary", i), boundary=True)
+    for i in range(ctx.n(40, 500)):
+        yield gen_cluster(ctx.rng("clusterbig", i), boundary=i % 3 == 0, big=True)
     for i in range(ctx.n(200, 3000)):
         yield gen_prox(ctx.rng("prox", i))
+    for i in range(ctx.n(60, 800)):
+        yield gen_prox_big(ctx.rng("proxbig", i))
     from . import c19_pcorr
     for inp in c19_pcorr.gen_cases(ctx):
         yield inp
@@ -444,6 +495,8 @@ def run_prox_case(ctx, inp):
     from trackpy import static
     res = Result()
     res.stat("prox_cases")
+    if inp["stream"] != "prox":
+        res.stat(inp["stream"] + "_cases")
     dim = inp["dim"]
     pts = [[fr(v) for v in p] for p in inp["pts"]]
     n = len(pts)
@@ -453,7 +506,17 @@ def run_prox_case(ctx, inp):
     if inp["particle"]:
         random.Random(inp["perm"]).shuffle(labels)
         data["particle"] = labels
-    f = pd.DataFrame(data)
+    if inp.get("extra_col"):
+        data["mass"] = [float(i) for i in range(n)]
+    index = inp.get("index", "range")
+    if index == "offset":
+        idx = list(range(100, 100 + n))
+    elif index == "shuffled":
+        idx = random.Random(inp["perm"] + 1).sample(range(3 * n + 5), n)
+    else:
+        idx = list(range(n))
+    res.stat("prox_index_" + index)
+    f = pd.DataFrame(data, index=idx)
     kw = {} if dim == 2 else dict(pos_columns=cols)
     try:
         out = static.proximity(f, **kw)
@@ -461,18 +524,30 @@ def run_prox_case(ctx, inp):
         res.violation("property-violation", "proximity raised %r" % e,
                       signature=dict(stream="prox", what="raises"))
         return res
+    if len(out) != n:
+        res.violation("property-violation", "proximity returns %d rows for %d features" % (len(out), n),
+                      signature=dict(stream="prox", what="rows"))
+        return res
     got = [float(v) for v in out["proximity"].values]
     if inp["particle"] and list(out.index) != labels:
         res.violation("property-violation", "proximity: index is not the particle column",
                       impl=list(out.index), signature=dict(stream="prox", what="index"))
-    # oracle: brute force, exact
-    want = []
-    for i in range(n):
-        ds = [sum((pts[i][k] - pts[j][k]) ** 2 for k in range(dim)) for j in range(n) if j != i]
-        want.append(min(ds) if ds else None)
-    m = common.kv(ctx.ask("PROX " + " ".join(",".join(rs(v) for v in p) for p in pts)))
-    res.model_calls += 1
-    model = [None if t == "n" else fr(t) for t in m["d2"].split(",")]
+    # oracle: brute force, exact (integer arithmetic on the numerators of the k/8 coordinates)
+    den = 1
+    for p in pts:
+        for v in p:
+            den = den * v.denominator // math.gcd(den, v.denominator)
+    ip = np.array([[int(v * den) for v in p] for p in pts], dtype=np.int64).reshape(n, dim)
+    d2 = ((ip[:, None, :] - ip[None, :, :]) ** 2).sum(-1)
+    np.fill_diagonal(d2, np.iinfo(np.int64).max)
+    want = [F(int(v), den * den) for v in d2.min(axis=1)] if n > 1 else [None]
+    if n <= 40:
+        m = common.kv(ctx.ask("PROX " + " ".join(",".join(rs(v) for v in p) for p in pts)))
+        res.model_calls += 1
+        model = [None if t == "n" else fr(t) for t in m["d2"].split(",")]
+    else:                                  # large frames: direct oracle only
+        res.stat("prox_large_oracle_only")
+        m, model = None, want
 
     def close(g, w):
         if w is None:
@@ -497,9 +572,9 @@ def run_prox_case(ctx, inp):
 
 def run_case(ctx, inp):
     s = inp.get("stream")
-    if s in ("cluster", "boundary"):
+    if s in ("cluster", "boundary", "clusterbig"):
         return run_cluster_case(ctx, inp)
-    if s == "prox":
+    if s in ("prox", "proxbig"):
         return run_prox_case(ctx, inp)
     from . import c19_pcorr
     return c19_pcorr.run_case(ctx, inp)
